@@ -10,6 +10,7 @@
  * (3) --from-locale A --locale B on the tools: equals parse with A composed with print with B. */
 #include "engine.h"
 #include "models.h"
+#include "invgen.h"
 #include <string.h>
 #include <errno.h>
 #include <algorithm>
@@ -193,6 +194,70 @@ struct EnvEngine : Engine {
 		static const char *locs[] = {"de_DE", "fr_FR", "it_IT", "tr_TR", "ja_JP", "ru_RU", "fo_FO", "xh_ZA"};
 		unsigned k = (unsigned)r.below(100);
 		auto &a = p.argv;
+		if (r.chance(3, 10)) {
+			/* ---- from the shared grammar: inputs that determine every field, or --base ---- */
+			inv::GenOpt go;
+			go.want_full = true;
+			go.allow_sed = true;
+			inv::Inv iv = inv::rand_inv(r, go);
+			a = inv::inv_argv(iv);
+			size_t n = (size_t)r.range(1, 4);
+			/* values: no junk, nothing the tool could take for an option */
+			std::vector<std::string> vals;
+			for (size_t i = 0; i < n * 3 && vals.size() < n; i++) {
+				std::string v = inv::inv_value(r, iv);
+				if (v.empty() || v[0] == '-' || v == "foo" || v == "T" || v == " " || v == "99" || v == "1e9")
+					continue;
+				vals.push_back(iv.textlines ? inv::text_around(r, v) : v);
+			}
+			if (vals.empty())
+				vals.push_back("2012-03-04T05:06:07");
+			if (iv.mode == 0)
+				a.insert(a.end(), vals.begin(), vals.end());
+			else {
+				p.has_input = true;
+				for (auto &v : vals)
+					p.input += v + "\n";
+			}
+			if (iv.has_base)
+				p.par["with_base"] = "1";
+			p.par["grammar"] = "1";
+			return;
+		}
+		if (r.chance(1, 16)) {
+			/* ---- values that begin like one of the special keywords but are ordinary dates in the given format ---- */
+			static const char *kw[] = {"now", "today", "date", "time", "tomo", "tomorrow", "yday", "yesterday", "Now", "TODAY"};
+			static const char *body[] = {" %Y-%m-%d %H%M", " %F", "%Y%m%d", " %d %b %Y %H:%M:%S", "-%FT%T", " %s"};
+			static const char *pad[] = {"", "x", "--", "end", "    ", "#####", "abcdef", "1234567", "........", "/////////", "0123456789", "ABCDEFGHIJK",
+						    "qqqqqqqqqqqq", "zzzzzzzzzzzzz", "______________", "yyyyyyyyyyyyyyy"};
+			std::string f = std::string(kw[r.below(10)]) + body[r.below(6)];
+			/* the literal tail walks the total length through all residues */
+			std::string tail = pad[r.below(16)];
+			if (!tail.empty() && isdigit((unsigned char)tail[0]) && isdigit((unsigned char)f.back()))
+				tail = "_" + tail;
+			f += tail.empty() ? "" : " " + tail;
+			inv::Civ c1 = inv::rand_civ(r, 1971, 2090), c2 = inv::rand_civ(r, 1971, 2090);
+			std::string v1 = inv::fmt_value(f, c1), v2 = inv::fmt_value(f, c2);
+			switch (r.below(5)) {
+			case 0:
+				a = {"dconv", "-i", f, "-f", "%FT%T", v1, v2};
+				break;
+			case 1:
+				a = {"dtest", "-i", f, v1, r.chance(1, 2) ? "--ot" : "--cmp", v2};
+				break;
+			case 2:
+				a = {"dround", "-i", f, "-f", "%F", v1, "Mon"};
+				break;
+			case 3:
+				a = {"dadd", "-i", f, "-f", "%FT%T", v1, "+1d"};
+				break;
+			default:
+				a = {"ddiff", "-i", f, v1, v2, "-f", "%d"};
+				break;
+			}
+			p.par["keyword_prefix"] = "1";
+			return;
+		}
 		if (k < 14) {
 			a = {"dconv", "-f", ofmts[r.below(9)]};
 			size_t n = (size_t)r.range(1, 4);
